@@ -82,7 +82,7 @@ pub fn def(tier: Tier) -> PropertyDef {
     let subs = vec![
         sub(
             "framing_small",
-            tier.pick(24_000, 600_000),
+            tier.pick(300_000, 3_000_000),
             (stream(20, false, 300), start.clone()),
             check_stream,
         )
@@ -90,13 +90,13 @@ pub fn def(tier: Tier) -> PropertyDef {
         .boxed(),
         sub(
             "framing_huge",
-            tier.pick(3_000, 100_000),
+            tier.pick(30_000, 400_000),
             (stream(8, true, 5000), start),
             check_stream,
         )
         .rates(&[("payload_gt_60000", 0.05)])
         .boxed(),
-        crate::fuzzing::fuzz_sub("framing", "fuzz_framing", tier.pick(2_000, 20_000)),
+        crate::fuzzing::fuzz_sub("framing", "fuzz_framing", tier.pick(20_000, 200_000)),
     ];
     PropertyDef {
         id: "C01",
